@@ -213,16 +213,18 @@ theorem resync_sends_next (cfg : Cfg) (evs : List Ev) (hs : Synced (run cfg evs)
 /-- No event of any history ever ends in IgnoreMessage; and no event of follower A ends in the
 "answer ≠ sent index" branch of Replica ("TODO: need reset ack sequence?") unless the other
 follower's handshake has moved A's group while A's channel was ready, or a Put on the follower failed
-earlier and no handshake has happened since (ghost `dz`), or this very event carries a follower Put fault.
+earlier and no handshake has happened since (ghost `dz`), or the follower's partition was closed under the
+open stream (`closed`: every send is answered with ErrPartitionClosed), or this very event carries a follower Put fault.
 Full-strength (no `dz`): false — two followers + leader tail loss, `Neg.mismatch_reachable`; a follower Put
 fault, `Neg.put_fault_wedges_channel`. -/
 theorem resync_unreachable_mismatch_partial (cfg : Cfg) (evs : List Ev) (e : Ev) :
     (next cfg (run cfg evs) e).2 ≠ .ignored ∧
-    (e.who = some .a → (run cfg evs).dz = false → e.putFault = false → (next cfg (run cfg evs) e).2 ≠ .mismatch) := by
+    (e.who = some .a → (run cfg evs).dz = false → (run cfg evs).closed = false → e.putFault = false →
+      (next cfg (run cfg evs) e).2 ≠ .mismatch) := by
   have hn := next_spec cfg _ e (full_run cfg evs)
-  refine ⟨hn.ignored, fun he hd hp => ?_⟩
+  refine ⟨hn.ignored, fun he hd hcl hp => ?_⟩
   by_cases hg : (run cfg evs).gone = false
-  · exact (hn.pa he hg).label.2 hd hp
+  · exact (hn.pa he hg).label.2 hd hcl hp
   · have := hn.goneKeep (by simpa using hg)
     rw [this.2]; simp
 
@@ -243,8 +245,8 @@ theorem resync_unreachable_mismatch (cfg : Cfg) (evs : List Ev) (h : NoLoss evs)
         rcases this with x | x <;> rw [x] <;> simp
     | some w =>
       cases w with
-      | a => exact (hn.pa hw hg).label.2 hnl.dza hpe
-      | b => exact (hn.pb hw hg).label.2 hnl.dzb hpe
+      | a => exact (hn.pa hw hg).label.2 hnl.dza hnl.cla hpe
+      | b => exact (hn.pb hw hg).label.2 hnl.dzb hnl.clb hpe
   · have := hn.goneKeep (by simpa using hg)
     rw [this.2]; simp
 
@@ -255,7 +257,7 @@ theorem next_step_a (cfg : Cfg) (s : St) (f : Fault) (hg : s.gone = false) (hst 
 /-- Progress of a synced, undisturbed channel: with data pending and no fault, one step appends the
 next leader message at the follower's next position, byte-identical, and acknowledges it. -/
 theorem resync_progress (cfg : Cfg) (evs : List Ev) (hs : Synced (run cfg evs)) (hd : (run cfg evs).dz = false)
-    (hg : (run cfg evs).gone = false) (hst : (run cfg evs).stopped = false)
+    (hcl : (run cfg evs).closed = false) (hg : (run cfg evs).gone = false) (hst : (run cfg evs).stopped = false)
     (hsusp : (run cfg evs).parked = false) (hp : (run cfg evs).F.app < (run cfg evs).L.app) :
     (next cfg (run cfg evs) (.step .a .none)).1.F.app = (run cfg evs).F.app + 1 ∧
     (next cfg (run cfg evs) (.step .a .none)).1.gack = (run cfg evs).F.app + 1 ∧
@@ -263,7 +265,7 @@ theorem resync_progress (cfg : Cfg) (evs : List Ev) (hs : Synced (run cfg evs)) 
       = (run cfg evs).L.get ((run cfg evs).F.app + 1) ∧
     Synced (next cfg (run cfg evs) (.step .a .none)).1 := by
   rw [next_step_a cfg _ _ hg hst hsusp]
-  have h := replicaStep_none_progress cfg _ (full_run cfg evs).a hst hs hd
+  have h := replicaStep_none_progress cfg _ (full_run cfg evs).a hst hs hd hcl
   rw [if_pos hp] at h
   exact ⟨h.2.2.2.1, (h.2.2.2.2 hp).1, (h.2.2.2.2 hp).2, h.1⟩
 
@@ -288,10 +290,10 @@ theorem resync_online (cfg : Cfg) (evs : List Ev) (hn : (run cfg evs).chan ≠ .
 
 /-- A synced channel stays synced under fault-free steps: unconditionally in the tree as it is (where a
 channel that is out of step stays `ready` and wedged); in the repaired shape of Replica's else-branch
-when the channel is in step (`dz = false`) — otherwise the mismatch forces a handshake, see
+when the channel is in step (`dz = false`) and the follower's partition is open — otherwise the mismatch forces a handshake, see
 `resync_mismatch_forces_handshake`. -/
 theorem resync_stays_synced (cfg : Cfg) (evs : List Ev) (h : Synced (run cfg evs))
-    (hm : cfg.mfail = false ∨ (run cfg evs).dz = false)
+    (hm : cfg.mfail = false ∨ ((run cfg evs).dz = false ∧ (run cfg evs).closed = false))
     (hg : (run cfg evs).gone = false) (hst : (run cfg evs).stopped = false) (hs : (run cfg evs).parked = false) :
     Synced (next cfg (run cfg evs) (.step .a .none)).1 := by
   rw [next_step_a cfg _ _ hg hst hs]
@@ -299,7 +301,7 @@ theorem resync_stays_synced (cfg : Cfg) (evs : List Ev) (h : Synced (run cfg evs
   refine replicaStep_none_stays cfg _ hb.a hst h ?_
   rcases hm with hm | hm
   · exact Or.inl hm
-  · exact Or.inr (hb.a.sync h.1 hm (by rw [h.2]; intro e; cases e))
+  · exact Or.inr ⟨hb.a.sync h.1 hm.1 (by rw [h.2]; intro e; cases e), hm.2⟩
 
 /-- Repaired shape of Replica's else-branch: an event of follower A that ends in the mismatched-answer
 branch leaves the channel in `failure`, so the next replica call runs the handshake (`resync_one_step`). -/
@@ -315,7 +317,8 @@ wedges the channel. From a synced, in-step channel with data pending: the call w
 ONE further fault-free call end synced, with the refused message re-sent, appended byte-identical and
 acknowledged — no stream fault needed. (In the tree as it is this is false: `Neg.put_fault_wedges_channel`.) -/
 theorem resync_after_put_fault (cfg : Cfg) (hm : cfg.mfail = true) (evs : List Ev) (hsy : Synced (run cfg evs))
-    (hd : (run cfg evs).dz = false) (hg : (run cfg evs).gone = false) (hst : (run cfg evs).stopped = false)
+    (hd : (run cfg evs).dz = false) (hcl : (run cfg evs).closed = false) (hg : (run cfg evs).gone = false)
+    (hst : (run cfg evs).stopped = false)
     (hl : (run cfg evs).live = true) (hs : (run cfg evs).susp = false) (hpk : (run cfg evs).parked = false)
     (hp : (run cfg evs).F.app < (run cfg evs).L.app) :
     Synced (run cfg (evs ++ [.step .a .put, .step .a .none])) ∧
@@ -332,7 +335,7 @@ theorem resync_after_put_fault (cfg : Cfg) (hm : cfg.mfail = true) (evs : List E
     rw [this, run_snoc, run_snoc, next_step_a cfg _ _ hg hst hpk,
       next_step_a cfg _ _ (hf.2.2.2.trans hg) (hf.2.2.1.trans hst) hfp.1]
   rw [e1]
-  exact replicaStep_after_put_fault cfg _ hb.a hst hsy hd hp hl hm
+  exact replicaStep_after_put_fault cfg _ hb.a hst hsy hd hcl hp hl hm
 
 /-- Liveness as a post-condition, repeated-fault case: after ANY history — any number and mix of
 faults — two consecutive fault-free replica calls of a live, non-parked, registered follower end with
@@ -357,7 +360,7 @@ theorem resync_two_steps (cfg : Cfg) (evs : List Ev)
 /-- Catch-up: from a synced, undisturbed channel, `k` fault-free steps bring the follower to
 `min (appended + k, leader appended)` and the channel stays synced. -/
 theorem resync_catch_up (cfg : Cfg) (evs : List Ev) (k : Nat) (hsy : Synced (run cfg evs))
-    (hd : (run cfg evs).dz = false) (hg : (run cfg evs).gone = false) (hst : (run cfg evs).stopped = false)
+    (hd : (run cfg evs).dz = false) (hcl : (run cfg evs).closed = false) (hg : (run cfg evs).gone = false) (hst : (run cfg evs).stopped = false)
     (hl : (run cfg evs).live = true) (hs : (run cfg evs).susp = false) (hpk : (run cfg evs).parked = false) :
     Synced (run cfg (evs ++ List.replicate k (.step .a .none))) ∧
     (run cfg (evs ++ List.replicate k (.step .a .none))).F.app =
@@ -371,13 +374,14 @@ theorem resync_catch_up (cfg : Cfg) (evs : List Ev) (k : Nat) (hsy : Synced (run
   | succ k ih =>
     have hb := full_run cfg evs
     have hf := replicaStep_flags cfg (run cfg evs) .none hl hs
-    have hp := replicaStep_none_progress cfg _ hb.a hst hsy hd
+    have hp := replicaStep_none_progress cfg _ hb.a hst hsy hd hcl
     have e1 : run cfg (evs ++ [.step .a .none]) = (replicaStep cfg (run cfg evs) .none).1 := by
       rw [run_snoc, next_step_a cfg _ _ hg hst hpk]
     have hfp := replicaStep_parked cfg (run cfg evs) .none hl hpk hs
     have e2 : evs ++ List.replicate (k + 1) (Ev.step .a .none) = (evs ++ [Ev.step .a .none]) ++ List.replicate k (Ev.step .a .none) := by
       simp [List.replicate_succ]
     have := ih (evs ++ [.step .a .none]) (by rw [e1]; exact hp.1) (by rw [e1]; exact hp.2.1)
+      (by rw [e1]; exact (replicaStep_spec cfg _ .none hb.a hst).cl hcl)
       (by rw [e1]; exact hf.2.2.2.trans hg) (by rw [e1]; exact hf.2.2.1.trans hst) (by rw [e1]; exact hf.1) (by rw [e1]; exact hf.2.1) (by rw [e1]; exact hfp.1)
     rw [e2]
     refine ⟨this.1, ?_, ?_⟩
@@ -424,6 +428,82 @@ theorem resync_online_in_window (cfg : Cfg) (hw : cfg.wake = true) (evs : List E
   · rfl
   · exact hp
   · rfl
+
+/-! ### leader restart goes through `partition.recovery`; a follower partition closed under the open stream -/
+
+/-- `partition.recovery`: re-opening the leader's partition (restart, or restart on an older disk
+image) gives EVERY follower whose group directory exists its replicator back — whether or not that
+follower is online at that moment — in state `init` without a stream and not parked; a follower
+without a group directory gets none. -/
+theorem restart_rebuilds_channels (cfg : Cfg) (evs : List Ev) (hg : (run cfg evs).gone = false) :
+    (next cfg (run cfg evs) .lrestart).1.stopped = !(run cfg evs).born ∧
+    (next cfg (run cfg evs) .lrestart).1.stopped2 = !(run cfg evs).born2 ∧
+    (next cfg (run cfg evs) .lrestart).1.chan = .init ∧ (next cfg (run cfg evs) .lrestart).1.chan2 = .init ∧
+    (next cfg (run cfg evs) .lrestart).1.parked = false ∧ (next cfg (run cfg evs) .lrestart).1.parked2 = false ∧
+    (next cfg (run cfg evs) .lrestart).1.live = (run cfg evs).live ∧
+    (next cfg (run cfg evs) .lrestart).1.live2 = (run cfg evs).live2 := by
+  have e : (next cfg (run cfg evs) .lrestart).1 = reopenLeader (run cfg evs) (run cfg evs).image := by
+    simp [next, hg, Ev.who]
+  rw [e]
+  exact ⟨rfl, rfl, rfl, rfl, rfl, rfl, rfl, rfl⟩
+
+/-- the same for a restart on a kept disk image: the groups of the IMAGE decide -/
+theorem restore_rebuilds_channels (cfg : Cfg) (evs : List Ev) (k : Nat) (im : Img) (rest : List Img)
+    (hg : (run cfg evs).gone = false) (hk : (run cfg evs).imgs.drop k = im :: rest) :
+    (next cfg (run cfg evs) (.lrestore k)).1.stopped = !im.born ∧
+    (next cfg (run cfg evs) (.lrestore k)).1.stopped2 = !im.born2 ∧
+    (next cfg (run cfg evs) (.lrestore k)).1.chan = .init ∧ (next cfg (run cfg evs) (.lrestore k)).1.chan2 = .init ∧
+    (next cfg (run cfg evs) (.lrestore k)).1.parked = false ∧ (next cfg (run cfg evs) (.lrestore k)).1.parked2 = false := by
+  have e : (next cfg (run cfg evs) (.lrestore k)).1 = { reopenLeader (run cfg evs) im with imgs := im :: rest } := by
+    simp [next, hg, Ev.who, hk]
+  rw [e]
+  exact ⟨rfl, rfl, rfl, rfl, rfl, rfl⟩
+
+/-- Restart through recovery keeps the replication invariants — `no_holes`, `agreement_inflight`,
+`ack_sound_leader_events`, `restart_keeps_ack` hold for every history, restarts included — and the
+channel resynchronises without an operator even when the follower is OFFLINE while the leader
+recovers: restart, follower offline, the loop's first call parks, the online notification releases
+it and the channel ends synced. -/
+theorem restart_offline_then_online_resyncs (cfg : Cfg) (evs : List Ev) (hg : (run cfg evs).gone = false)
+    (hb : (run cfg evs).born = true) :
+    Synced (run cfg (evs ++ [.lrestart, .offline .a, .step .a .none, .online .a .none])) := by
+  have e4 : evs ++ [Ev.lrestart, .offline .a, .step .a .none, .online .a .none] =
+      (evs ++ [Ev.lrestart, .offline .a, .step .a .none]) ++ [.online .a .none] := by simp
+  have e3 : evs ++ [Ev.lrestart, .offline .a, .step .a .none] = ((evs ++ [Ev.lrestart]) ++ [.offline .a]) ++ [.step .a .none] := by simp
+  have r3 : run cfg (evs ++ [Ev.lrestart, .offline .a, .step .a .none]) =
+      { reopenLeader (run cfg evs) (run cfg evs).image with live := false, chan := .failure, susp := true, parked := true } := by
+    rw [e3, run_snoc, run_snoc, run_snoc]
+    simp [next, hg, Ev.who, peerEv, replicaStep, isReady, reopenLeader, hb, St.image]
+  rw [e4, run_snoc]
+  apply resync_online
+  · rw [r3]; intro x; cases x
+  · rw [r3]; exact hg
+  · rw [r3]; show (!(run cfg evs).born) = false; rw [hb]; rfl
+  · rw [r3]
+
+/-- A closed partition never acks: while the stream's handler holds a partition that was closed under
+it (`ReplicaLog` returns `0, ErrPartitionClosed`), a replica call over that stream — with any fault,
+at any replica index, index 0 included — appends nothing, leaves the group's ack where it is and never
+ends in the acknowledged branch; with data pending the repaired shape of the else-branch ends in
+`failure`, so the next call shakes hands, opens a new stream (whose handler resolves the current
+partition) and resynchronises (`resync_one_step`, `resync_two_steps`). -/
+theorem closed_never_acks (cfg : Cfg) (evs : List Ev) (f : Fault) (hcl : (run cfg evs).closed = true)
+    (hr : (run cfg evs).chan = .ready) (hu : (run cfg evs).stream ≠ .none)
+    (hg : (run cfg evs).gone = false) (hst : (run cfg evs).stopped = false) (hpk : (run cfg evs).parked = false) :
+    (next cfg (run cfg evs) (.step .a f)).1.gack = (run cfg evs).gack ∧
+    (next cfg (run cfg evs) (.step .a f)).1.F = (run cfg evs).F ∧
+    (next cfg (run cfg evs) (.step .a f)).2 ≠ .acked ∧
+    (cfg.mfail = true → (run cfg evs).cons < (run cfg evs).L.app →
+      (next cfg (run cfg evs) (.step .a f)).1.chan = .failure) := by
+  rw [next_step_a cfg _ _ hg hst hpk]
+  exact replicaStep_closed_no_ack cfg _ f (full_run cfg evs).a hst hcl hr hu
+
+/-- closing the follower's partition itself moves no ack and leaves the follower with an empty log -/
+theorem fclose_keeps_ack (cfg : Cfg) (evs : List Ev) (hg : (run cfg evs).gone = false) :
+    (next cfg (run cfg evs) (.fclose .a)).1.gack = (run cfg evs).gack ∧
+    (next cfg (run cfg evs) (.fclose .a)).1.L = (run cfg evs).L ∧
+    (next cfg (run cfg evs) (.fclose .a)).1.closed = true := by
+  simp [next, hg, Ev.who, peerEv]
 
 /-! ## 5. ties to the regenerated facts (replica/*.go, app/storage/rpc/replica.go, pkg/queue/*.go) -/
 
@@ -637,6 +717,19 @@ theorem replica_conds : C08.replicaConds =
   simp only [C08.replicaConds, C08.respErrChecked]; rfl
 theorem partitionReplica_conds : C08.partitionReplicaConds =
     ["replicator.IsReady() && replicator.Connect()", "seq >= 0", "err != nil"] := rfl
+/-- the closed branch is modelled for the shape that checks `resp.Err` (fix 5d9ed1f): without the check the
+closed partition's don't-care answer 0 would acknowledge replica index 0 -/
+theorem resp_err_checked : C08.respErrChecked = true := rfl
+/-- `ReplicaHandler.Replica` (follower side of the stream): resolves its partition once per stream, then
+Recv / ReplicaLog / Send — an error of ReplicaLog (closed partition, failed Put) is only reported in `resp.Err` -/
+theorem handler_conds : C08.handlerConds =
+    ["err != nil", "err != nil", "err != nil", "err == io.EOF", "err != nil", "err != nil", "err != nil"] := rfl
+theorem handler_calls : C08.handlerCalls =
+    ["server.Context", "r.getReplicaStateFromCtx", "r.getOrCreatePartition", "p.BuildReplicaForFollower", "server.Recv",
+     "p.ReplicaLog", "server.Send"] := rfl
+/-- `partition.recovery`: one buildReplica per consumer-group directory, no other condition than its error -/
+theorem recovery_conds : C08.recoveryConds = ["err != nil"] := rfl
+theorem recovery_calls : C08.recoveryCalls = ["log.ConsumerGroupNames", "models.ParseNodeID", "p.buildReplica"] := rfl
 theorem replicaLog_conds : C08.replicaLogConds = ["p.closed.Load()", "replicaIdx != appendIdx", "err != nil"] := rfl
 
 /-- NewConsumerGroup: re-open lifts consumed to the (lifted) ack; a new group starts at the queue's ack -/
@@ -693,6 +786,24 @@ example : (run { fixed := true, mfail := false, wake := true } [.append [1], .ap
   decide
 /-- restoring an OLDER image after a newer one is expressible -/
 example : (run { fixed := true, mfail := false, wake := true } [.append [1], .lsnap, .append [2], .lsnap, .append [3], .lrestore 0, .lrestore 1]).L.app = 0 := by
+  decide
+
+/-- `closed_never_acks` at the boundary: the stream is opened before the first message exists, the follower's
+partition is closed under it, the first message carries replica index 0 = the closed branch's answer 0:
+not acknowledged, the state becomes `failure`; the next call resynchronises and the follower holds position 0 -/
+example : (run { fixed := true, mfail := true, wake := true } [.step .a .none, .fclose .a, .append [1]]).closed = true ∧
+    Synced (run { fixed := true, mfail := true, wake := true } [.step .a .none, .fclose .a, .append [1]]) ∧
+    (run { fixed := true, mfail := true, wake := true } [.step .a .none, .fclose .a, .append [1], .step .a .none]).gack = -1 ∧
+    (run { fixed := true, mfail := true, wake := true } [.step .a .none, .fclose .a, .append [1], .step .a .none]).chan = .failure ∧
+    Synced (run { fixed := true, mfail := true, wake := true } [.step .a .none, .fclose .a, .append [1], .step .a .none, .step .a .none]) ∧
+    (run { fixed := true, mfail := true, wake := true } [.step .a .none, .fclose .a, .append [1], .step .a .none, .step .a .none]).F.get 0 = some [1] ∧
+    (run { fixed := true, mfail := true, wake := true } [.step .a .none, .fclose .a, .append [1], .step .a .none, .step .a .none]).gack = 0 := by
+  decide
+/-- `restart_offline_then_online_resyncs` with a backlog: the follower gets it after coming back -/
+example : (run { fixed := true, mfail := true, wake := true }
+      [.append [1], .offline .a, .step .a .none, .append [2], .lrestart, .step .a .none, .online .a .none, .step .a .none]).F.app = 1 ∧
+    (run { fixed := true, mfail := true, wake := true }
+      [.append [1], .offline .a, .step .a .none, .append [2], .lrestart, .step .a .none, .online .a .none, .step .a .none]).gack = 1 := by
   decide
 
 /-! ## 7. where the code violates the property -/
@@ -850,6 +961,20 @@ theorem wakeup_lost_if_nonblocking (fixed mfail : Bool) :
     (run { fixed := fixed, mfail := mfail, wake := false } [.offline .a, .steponl .a .none]).susp = false ∧
     (run { fixed := fixed, mfail := mfail, wake := false } [.offline .a, .steponl .a .none, .offline .a, .online .a .none]).parked = true := by
   cases fixed <;> cases mfail <;> decide
+
+/-- Why `partition.recovery` must rebuild the channel of an OFFLINE follower too: a registered group
+without a replicator (`stopped`) is deaf — neither the online notification nor a loop iteration sends
+anything, whatever the backlog. (`restart_rebuilds_channels`: recovery never leaves a group like that.) -/
+theorem no_replicator_never_resyncs (cfg : Cfg) (s : St) (f : Fault) (hg : s.gone = false) (hs : s.stopped = true) :
+    (next cfg s (.online .a f)).2 = .noreplicator ∧ (next cfg s (.online .a f)).1.F = s.F ∧
+    (next cfg s (.step .a f)).2 = .noreplicator ∧ (next cfg s (.step .a f)).1 = s := by
+  simp [next, hg, Ev.who, peerEv, onlineEv, hs]
+
+/-- Why the leader must look at `resp.Err`: the closed partition's answer carries the don't-care index 0,
+which equals the sent replica index exactly for the first message of a log -/
+theorem closed_answer_collides_at_zero (F : Log) (idx : Int) :
+    ((F, (0 : Int)).2 = idx) ↔ idx = 0 := by
+  constructor <;> intro h <;> simp_all
 
 end Neg
 
